@@ -4,6 +4,7 @@ Monitor: field-by-field comparison of the returned metadata - and of the copy ke
 results saved under a key) - with the reference interpreter's record and with values recomputed from the actual data.
 Only the fields the statement names are compared (time stamps, log texts, progress indicators are ignored).
 """
+import json
 import random
 
 PROPERTY = "C18"
@@ -263,7 +264,17 @@ def run_shard(spec):
             if cache is not None and not out.volatile and out.caching:
                 cm = cache.get_metadata(canon)
                 if cm is None:
-                    viol("cache_copy.missing", "cache keeps no metadata for successful %r" % q)
+                    # no copy, nothing to agree with - unless the cache had no excuse: metadata that cannot be written
+                    # as JSON (a state variable holding bytes, a set, ...) is legitimately refused by serialising caches
+                    try:
+                        json.dumps(st.metadata)
+                        excusable = False
+                    except Exception:
+                        excusable = True
+                    if excusable:
+                        env.count("cache_copy_not_kept_unserialisable_metadata")
+                    else:
+                        viol("cache_copy.missing", "cache keeps no metadata for successful %r" % q)
                 else:
                     env.count("cache_copies_checked")
                     check_success(env, q, cm, out, value, "cache_copy", viol, registry)
